@@ -5,7 +5,7 @@ From Coq Require Import ZArith Lia ZifyN ZifyBool ZifyNat String.
 From RML Require Import Model.Base Model.Utf8 Model.Chunk Model.ChunkSer Model.ChunkDe Model.Amf0 Model.Messages Model.Float Model.SessionCommon
   Model.Server Model.Client Gen.Consts Spec.Amf0Spec Spec.Amf0Wire
   Proofs.Amf0Proofs Proofs.MessageProofs Proofs.ChunkSerProofs Proofs.ConfigProofs Proofs.InteropProofs Proofs.FloatProofs
-  Proofs.ServerProofs Proofs.SessionFrame Proofs.SessionPartition Proofs.ProtocolProofs Proofs.ProtocolFlow.
+  Proofs.ServerProofs Proofs.SessionFrame Proofs.SessionPartition Proofs.ProtocolProofs Proofs.ProtocolFlow Proofs.Utf8Proofs.
 Local Open Scope N_scope.
 
 Lemma chunk_size_payload n : 1 <= n <= 2147483647 -> of_payload TID_SetChunkSize (be32 n) = Ok (MSetChunkSize n).
@@ -86,7 +86,7 @@ Theorem server_learns_window s ser w ts b ser' clock :
 Proof.
   intros HL Hss Hw Hts Hsend.
   destruct (server_receives s ser (MWindowAcknowledgement w) ts 0 false false b ser' clock HL Hss Hw I Hts ltac:(lia) Hsend)
-    as [pk [de1 [de3 [s0 [pre [Hof [Hsid [Htsp [Hc0 [Hd0 [Hs0 [Hpre [Hq [HL2 Hrun]]]]]]]]]]]]]].
+    as [pk [de1 [de3 [s0 [pre [Hof [Hsid [Htsp [Hc0 [Hd0 [Hs0 [Hpre [Hq [Hack [HL2 Hrun]]]]]]]]]]]]]]].
   assert (Hm : h_message (upd_de s0 de1) pk clock = (upd_ack (upd_de s0 de1) (ack_learn (sv_ack s0) w), ROk [])).
   { unfold h_message. rewrite Hof. reflexivity. }
   rewrite Hm in Hrun. cbv iota beta in Hrun. rewrite app_nil_r in Hrun.
@@ -174,7 +174,8 @@ Definition bwdone : rtmp_message := MAmf0Command (str "onBWDone") 0 VNull [VNumb
 (* messages the client takes note of without changing its workflow state *)
 Definition noted (m : rtmp_message) : Prop :=
   (exists w, m = MWindowAcknowledgement w /\ w < 4294967296) \/ m = MUserControl StreamBegin (Some 0) None None \/
-  (exists n lt, m = MSetPeerBandwidth n lt /\ n < 4294967296) \/ m = bwdone.
+  (exists n lt, m = MSetPeerBandwidth n lt /\ n < 4294967296) \/ m = bwdone \/
+  (exists n, m = MAcknowledgement n /\ n < 4294967296).      (* the acknowledgement a peer emits when its counter reaches the window *)
 
 Theorem client_notes ser ser' b c m ts cclock f :
   noted m -> Link ser (cl_de c) -> ser_ok (cl_ser c) -> ts < 4294967296 ->
@@ -186,24 +187,26 @@ Theorem client_notes ser ser' b c m ts cclock f :
 Proof.
   intros Hn HL Hcs Hts Hsend.
   assert (Hok : msg_ok m /\ plain m).
-  { destruct Hn as [[w [-> Hw]]|[ -> |[[n [l0 [-> Hb]]] | -> ]]]; (split; [|exact I]).
+  { destruct Hn as [[w [-> Hw]]|[ -> |[[n [l0 [-> Hb]]] | [ -> | [n [-> Hb]]]]]]; (split; [|exact I]).
     - exact Hw.
     - cbn [msg_ok]. split; [exists 0; split; [reflexivity|unfold u32; lia]|split; reflexivity].
     - exact Hb.
-    - cbn [msg_ok bwdone wf_values wf_value]. repeat split; try reflexivity; lia. }
+    - cbn [msg_ok bwdone wf_values wf_value]. repeat split; try reflexivity; lia.
+    - exact Hb. }
   destruct Hok as [Hok Hpl].
   destruct (client_receives c ser m ts 0 f false b ser' cclock HL Hcs Hok Hpl Hts ltac:(lia) Hsend)
-    as [pk [de1 [de3 [c0 [pre [Hof [Hsid [Htsp [[E1 [E2 [E3 [E4 [E5 E6]]]]] [Hd0 [Hs0 [Hpre [Hq [HL2 Hrun]]]]]]]]]]]]]].
+    as [pk [de1 [de3 [c0 [pre [Hof [Hsid [Htsp [[E1 [E2 [E3 [E4 [E5 E6]]]]] [Hd0 [Hs0 [Hpre [Hq [Hack [HL2 Hrun]]]]]]]]]]]]]]].
   assert (Hm : exists c1 rs, ch_message (cupd_de c0 de1) pk cclock = (c1, COk rs) /\ ccore (cupd_de c0 de1) c1 /\ cl_ser c1 = cl_ser c0 /\ cl_de c1 = de1 /\
-             (forall e, In e (cevents rs) -> match e with CUnhandleableCommand _ _ _ _ => True | _ => False end)).
+             (forall e, In e (cevents rs) -> match e with CUnhandleableCommand _ _ _ _ | CAcknowledgement _ => True | _ => False end)).
   { unfold ch_message. rewrite Hof.
-    destruct Hn as [[w [-> Hw]]|[ -> |[[n [l0 [-> Hb]]] | -> ]]]; cbv iota.
+    destruct Hn as [[w [-> Hw]]|[ -> |[[n [l0 [-> Hb]]] | [ -> | [n [-> Hb]]]]]]; cbv iota.
     - eexists. eexists. split; [reflexivity|]. split; [repeat split|]. split; [reflexivity|]. split; [reflexivity|]. intros e [].
     - eexists. eexists. split; [reflexivity|]. split; [repeat split|]. split; [reflexivity|]. split; [reflexivity|]. intros e [].
     - eexists. eexists. split; [reflexivity|]. split; [repeat split|]. split; [reflexivity|]. split; [reflexivity|]. intros e [].
     - unfold bwdone. cbv iota. unfold ch_command. eqb_strs.
       eexists. eexists. split; [reflexivity|]. split; [repeat split|]. split; [reflexivity|]. split; [reflexivity|].
-      intros e [<-|[]]. exact I. }
+      intros e [<-|[]]. exact I.
+    - eexists. eexists. split; [reflexivity|]. split; [repeat split|]. split; [reflexivity|]. split; [reflexivity|]. intros e [<-|[]]. exact I. }
   destruct Hm as [c1 [rs [Hm [Hcore [Hser1 [Hde1 Hev]]]]]]. rewrite Hm in Hrun. cbv iota beta in Hrun.
   eexists. eexists. split; [exact Hrun|].
   split. { intros e He. rewrite cevents_pre in He by exact Hpre. specialize (Hev e He). destruct e; try contradiction; exact I. }
@@ -283,7 +286,7 @@ Proof.
     split. { cbn [spackets flat_map List.app sv_ser upd_ser].
              apply (sends_size ser_init (cfg_chunk cfg) 0 b1 ser1 _ _ Hc ltac:(lia) E1). eapply sends_msg; [exact N2|exact Hclk|exact E2|].
              eapply sends_msg; [exact N3|exact Hclk|exact E3|]. eapply sends_msg; [exact N4|exact Hclk|exact E4|].
-             eapply sends_msg; [right; right; right; reflexivity|exact Hclk|exact E5|]. apply sends_nil. }
+             eapply sends_msg; [right; right; right; left; reflexivity|exact Hclk|exact E5|]. apply sends_nil. }
     repeat (split; [reflexivity|]). exact H5.
   - eexists. eexists. split; [reflexivity|]. split; [reflexivity|].
     split. { cbn [spackets flat_map List.app sv_ser upd_ser].
@@ -364,11 +367,19 @@ Proof.
   - destruct x as [|p]; [lia|]. repeat (destruct p as [p|p|]; try lia).
 Qed.
 
+Lemma strip_slash_utf8 app : utf8_valid app = true -> utf8_valid (strip_slash app) = true.
+Proof.
+  intros Ha. unfold strip_slash. destruct (rev app) as [|x r] eqn:E; [exact Ha|]. destruct (N.eq_dec x 47) as [->|Hx].
+  - assert (Eapp : app = rev r ++ [47]) by (rewrite <- (rev_involutive app), E; reflexivity).
+    rewrite Eapp in Ha. apply (utf8_drop_last_ascii (rev r) 47); [lia|exact Ha].
+  - destruct x as [|p]; [exact Ha|]. repeat (destruct p as [p|p|]; try exact Ha). exfalso. apply Hx. reflexivity.
+Qed.
+
 (* C02_connect_completes with every outcome decided: for names and version strings that fit AMF0's 16-bit length the calls
    succeed - no error alternative is left *)
 Theorem connect_completes_decided c s app clock sclock aclock cclock :
   Link (cl_ser c) (sv_de s) -> Link (sv_ser s) (cl_de c) -> ser_ok (cl_ser c) -> ser_ok (sv_ser s) ->
-  cl_state c = Disconnected -> strings_ok c app -> sizes_ok c app -> utf8_valid (strip_slash app) = true -> ack_window (sv_ack s) = None ->
+  cl_state c = Disconnected -> strings_ok c app -> sizes_ok c app -> ack_window (sv_ack s) = None ->
   utf8_valid (sv_fms s) = true -> lenN (sv_fms s) <= 65535 ->
   clock < 4294967296 -> aclock < 4294967296 -> cclock < 4294967296 -> 1 <= cc_chunk (cl_cfg c) <= 2147483647 ->
   exists b1 c1 s1 b2 s2 c2 rs pre w1 w2,
@@ -381,7 +392,8 @@ Theorem connect_completes_decided c s app clock sclock aclock cclock :
     sv_connected s2 = true /\ sv_app s2 = Some (strip_slash app) /\
     Link (sv_ser s2) (cl_de c2) /\ s_max (cl_ser c2) = cc_chunk (cl_cfg c).
 Proof.
-  intros HL1 HL2 Hcs Hss Hst Hstr Hsz Hstrip Hw Hfms Hfl Hclk Haclk Hcclk Hchunk.
+  intros HL1 HL2 Hcs Hss Hst Hstr Hsz Hw Hfms Hfl Hclk Haclk Hcclk Hchunk.
+  assert (Hstrip : utf8_valid (strip_slash app) = true) by (apply strip_slash_utf8; exact (proj1 Hstr)).
   assert (Hdesc : utf8_valid (str "Successfully connected on app: " ++ strip_slash app) = true)
     by (rewrite utf8_ascii_app by (vm_compute; reflexivity); exact Hstrip).
   destruct (connect_request_ok c app clock Hcs Hst Hsz) as [c1' [b1' Hreq']].
@@ -397,4 +409,22 @@ Proof.
       destruct (accept_connection_ok s1 (sv_next_req s) (strip_slash app) _ aclock Freq Fss ltac:(rewrite Ffms; exact Hfl) ltac:(lia)) as [s2 [b2 Hacc]].
       rewrite Hacc in E3. discriminate E3.
   - exact H.
+Qed.
+
+(* ---------------------------------------------------------------- acknowledgements are reported and change nothing else *)
+(* When a receiving call is not quiet, the extra packet it returns is an Acknowledgement; the peer reads it like this. *)
+Theorem server_notes_acknowledgement ser ser' b s n ts f sclock :
+  Link ser (sv_de s) -> ser_ok (sv_ser s) -> n < 4294967296 -> ts < 4294967296 ->
+  send_message ser (MAcknowledgement n) ts 0 f false = Ok (b, ser') ->
+  exists s2 r, server_handle_input s b sclock = (s2, ROk r) /\
+  events r = [EvAcknowledgement n] /\ same_core s s2 /\ Link ser' (sv_de s2) /\ ser_ok (sv_ser s2) /\
+  (quiet (sv_ack s) b -> r = [SEvent (EvAcknowledgement n)] /\ sv_ser s2 = sv_ser s).
+Proof.
+  intros HL Hss Hn Hts Hsend.
+  destruct (server_receives s ser (MAcknowledgement n) ts 0 f false b ser' sclock HL Hss Hn I Hts ltac:(lia) Hsend)
+    as [pk [de1 [de3 [s0 [pre [Hof [Hsid [Htsp [Hc0 [Hd0 [Hs0 [Hpre [Hq [Hack [HL2 Hrun]]]]]]]]]]]]]]].
+  assert (Hm : h_message (upd_de s0 de1) pk sclock = (upd_de s0 de1, ROk [SEvent (EvAcknowledgement n)])) by (unfold h_message; rewrite Hof; reflexivity).
+  rewrite Hm in Hrun. cbv iota beta in Hrun.
+  eexists. eexists. split; [exact Hrun|]. split; [rewrite events_pre by exact Hpre; reflexivity|]. split; [exact Hc0|]. split; [exact HL2|]. split; [exact Hs0|].
+  intros Hquiet. destruct (Hq Hquiet) as [-> Hser0]. split; [reflexivity|exact Hser0].
 Qed.
